@@ -1,0 +1,40 @@
+//go:build verif
+
+package lungo
+
+import "github.com/256dpi/lungo/bsonkit"
+
+// VerifHook, when set, is called at the linearization points of the engine
+// protocol (see the vhook calls in engine.go and session.go). Points whose name
+// does not start with "begin.wait", "begin.woke", "session." or "close.done" are
+// reached while the engine mutex is held.
+var VerifHook func(point string, e *Engine, txn *Transaction)
+
+// VerifStreamHook, when set, is called at the linearization points of a stream.
+var VerifStreamHook func(point string, s *Stream)
+
+func vhook(point string, e *Engine, txn *Transaction) {
+	if h := VerifHook; h != nil {
+		h(point, e, txn)
+	}
+}
+
+func vhookStream(point string, s *Stream) {
+	if h := VerifStreamHook; h != nil {
+		h(point, s)
+	}
+}
+
+// VerifState returns the protocol state of the engine without taking its mutex:
+// the current catalog, whether a locked transaction exists, whether the engine is
+// alive and the number of free writer tokens. It must only be called from a hook
+// that runs under the engine mutex.
+func (e *Engine) VerifState() (catalog *Catalog, txn *Transaction, alive bool, tokens int) {
+	return e.catalog, e.txn, e.tomb.Alive(), e.token.VerifAvailable()
+}
+
+// VerifLast returns the last event the stream has consumed. It must only be called
+// from a stream hook (which runs with the stream in a consistent state).
+func (s *Stream) VerifLast() bsonkit.Doc {
+	return s.last
+}
